@@ -1,0 +1,55 @@
+//go:build verif
+
+package geom
+
+// Set operations: the empty-operand dispatch (C20 neutral answers) and the
+// Boolean include functions.  The overlay itself (setOp with two non-empty
+// operands) is opaque: C01 is not applicable.
+
+//@ prop C20
+
+//@ func wrap
+//@   modifies args
+//@   ensures (result == nil) <==> (err == nil)
+
+//@ func or
+//@   ensures result <==> (b[0] || b[1])
+//@ func and
+//@   ensures result <==> (b[0] && b[1])
+//@ func xor
+//@   ensures result <==> (b[0] != b[1])
+//@ func andNot
+//@   ensures result <==> (b[0] && !b[1])
+
+//@ pred SetOpG(a, f, b) = ufn(setopg, Geometry, a, f, b)
+//@ pred SetOpE(a, f, b) = ufn(setope, error, a, f, b)
+//@ pred ZeroG(g) = g.ptr == nil && g.gtype == 0
+
+//@ func setOp
+//@   trusted
+//@   defines same(result0, SetOpG(a, include, b)) && result1 == SetOpE(a, include, b)
+//@   ensures result1 != nil ==> ZeroG(result0)
+
+//@ func UnaryUnion
+//@   ensures same(result0, SetOpG(g, fid(or), mk(Geometry, 0, mk_nilptr()))) && result1 == SetOpE(g, fid(or), mk(Geometry, 0, mk_nilptr()))
+
+//@ func Union
+//@   ensures GEmpty(a) && GEmpty(b) ==> ZeroG(result0) && result1 == nil
+//@   ensures GEmpty(a) && !GEmpty(b) ==> same(result0, SetOpG(b, fid(or), mk(Geometry, 0, mk_nilptr()))) && result1 == SetOpE(b, fid(or), mk(Geometry, 0, mk_nilptr()))
+//@   ensures !GEmpty(a) && GEmpty(b) ==> same(result0, SetOpG(a, fid(or), mk(Geometry, 0, mk_nilptr()))) && result1 == SetOpE(a, fid(or), mk(Geometry, 0, mk_nilptr()))
+//@   ensures !GEmpty(a) && !GEmpty(b) ==> same(result0, SetOpG(a, fid(or), b)) && ((result1 == nil) <==> (SetOpE(a, fid(or), b) == nil))
+
+//@ func Intersection
+//@   ensures GEmpty(a) || GEmpty(b) ==> ZeroG(result0) && result1 == nil
+//@   ensures !GEmpty(a) && !GEmpty(b) ==> same(result0, SetOpG(a, fid(and), b)) && ((result1 == nil) <==> (SetOpE(a, fid(and), b) == nil))
+
+//@ func Difference
+//@   ensures GEmpty(a) ==> ZeroG(result0) && result1 == nil
+//@   ensures !GEmpty(a) && GEmpty(b) ==> same(result0, SetOpG(a, fid(or), mk(Geometry, 0, mk_nilptr()))) && result1 == SetOpE(a, fid(or), mk(Geometry, 0, mk_nilptr()))
+//@   ensures !GEmpty(a) && !GEmpty(b) ==> same(result0, SetOpG(a, fid(andNot), b)) && ((result1 == nil) <==> (SetOpE(a, fid(andNot), b) == nil))
+
+//@ func SymmetricDifference
+//@   ensures GEmpty(a) && GEmpty(b) ==> ZeroG(result0) && result1 == nil
+//@   ensures GEmpty(a) && !GEmpty(b) ==> same(result0, SetOpG(b, fid(or), mk(Geometry, 0, mk_nilptr()))) && result1 == SetOpE(b, fid(or), mk(Geometry, 0, mk_nilptr()))
+//@   ensures !GEmpty(a) && GEmpty(b) ==> same(result0, SetOpG(a, fid(or), mk(Geometry, 0, mk_nilptr()))) && result1 == SetOpE(a, fid(or), mk(Geometry, 0, mk_nilptr()))
+//@   ensures !GEmpty(a) && !GEmpty(b) ==> same(result0, SetOpG(a, fid(xor), b)) && ((result1 == nil) <==> (SetOpE(a, fid(xor), b) == nil))
